@@ -24,6 +24,7 @@ func init() {
 	props["life-reb"] = func(c *Ctx) { runLife(c, "reb") }
 	props["life-end"] = func(c *Ctx) { runLife(c, "end") }
 	props["life-shut"] = func(c *Ctx) { runLife(c, "shut") }
+	props["life-trail"] = runLifeTrail
 }
 
 const lifeGrid = 200  // ms between op times
@@ -638,4 +639,98 @@ func loadLifeReplay() []lifeCase {
 		}
 	}
 	return cases
+}
+
+// ---- F6 scenario: no checkpoint write may happen after Close() has returned, even when an
+// acknowledgement arrives late and the periodic schedule was running (checkpoint.type = auto)
+func trailScenario(intervalMs, nvb int, saveBefore bool, lateAcks int) string {
+	buf := &obuf{}
+	cl := newFakeClient(buf, 1024)
+	meta := newFakeMeta(buf)
+	co := &fakeConsumer{buf: buf, quiet: true}
+	disc := &fakeDisc{buf: buf}
+	disc.set(0, nvb-1)
+	cfg := baseConfig()
+	cfg.Checkpoint.Type = "auto"
+	cfg.Checkpoint.Interval = time.Duration(intervalMs) * time.Millisecond
+	for vb := 0; vb < nvb; vb++ {
+		cl.high[uint16(vb)] = 1 << 40
+	}
+	stop := make(chan struct{}, 1)
+	st := stream.NewStream(cl, meta, cfg, &couchbase.Version{Major: 7, Minor: 6}, &couchbase.BucketInfo{BucketType: "membase"},
+		disc, co, map[uint32]string{}, stop, &fakeEH{}, tracing.NewTracerComponent())
+	st.Open()
+	for vb := 0; vb < nvb; vb++ {
+		o := cl.observer(uint16(vb))
+		o.SnapshotMarker(models.DcpSnapshotMarker{VbID: uint16(vb), StartSeqNo: 1, EndSeqNo: 9})
+		for q := 1; q <= 1+lateAcks; q++ {
+			o.Mutation(gocbcore.DcpMutation{VbID: uint16(vb), SeqNo: uint64(q), Key: []byte("k"), Cas: 1700000000000000000})
+		}
+	}
+	// acknowledge the first event of every vBucket, let the schedule run at least once
+	co.mu.Lock()
+	ctxs := append([]*models.ListenerContext{}, co.ctxs...)
+	co.mu.Unlock()
+	per := 1 + lateAcks
+	for vb := 0; vb < nvb; vb++ {
+		ctxs[vb*per].Ack()
+	}
+	time.Sleep(time.Duration(intervalMs+intervalMs/2) * time.Millisecond)
+	// dcp.close(): final save (auto), then stream.Close
+	if saveBefore {
+		st.Save()
+	}
+	st.Close(true)
+	meta.mu.Lock()
+	before := meta.calls
+	meta.mu.Unlock()
+	// late acknowledgements after Close() returned
+	for vb := 0; vb < nvb; vb++ {
+		for k := 1; k <= lateAcks; k++ {
+			ctxs[vb*per+k].Ack()
+		}
+	}
+	time.Sleep(time.Duration(3*intervalMs+30) * time.Millisecond)
+	meta.mu.Lock()
+	after := meta.calls
+	meta.mu.Unlock()
+	return fmt.Sprintf("writes-after-close=%d", after-before)
+}
+
+func runLifeTrail(c *Ctx) {
+	type sc struct {
+		iv, nvb int
+		sb      bool
+		late    int
+	}
+	var scs []sc
+	if replayFile != "" {
+		for _, l := range readOpLines(replayFile) {
+			f := strings.Fields(l)
+			if len(f) == 5 && f[0] == "lf-trail" {
+				iv, _ := strconv.Atoi(f[1])
+				n, _ := strconv.Atoi(f[2])
+				la, _ := strconv.Atoi(f[4])
+				scs = append(scs, sc{iv, n, f[3] == "1", la})
+			}
+		}
+	} else {
+		for i := 0; i < c.N(16, 120); i++ {
+			scs = append(scs, sc{40 + 10*c.R.Intn(5), 1 + c.R.Intn(3), c.R.Bool(), 1 + c.R.Intn(2)})
+		}
+	}
+	res := make([]string, len(scs))
+	var wg sync.WaitGroup
+	for i := range scs {
+		wg.Add(1)
+		go func(i int) {
+			defer wg.Done()
+			res[i] = trailScenario(scs[i].iv, scs[i].nvb, scs[i].sb, scs[i].late)
+		}(i)
+	}
+	wg.Wait()
+	for i, s := range scs {
+		c.E.Line(fmt.Sprintf("lf-trail %d %d %d %d", s.iv, s.nvb, b2i(s.sb), s.late), res[i])
+		c.E.EndCase(true, "trail")
+	}
 }
